@@ -756,6 +756,27 @@ fn run(ctx: &mut Ctx) {
         }
         ctx.case(&label.clone(), |c| check_discarded_failure(c, "C09", &label, &src, class));
     }
+    // 2c. struct literals: the field expressions run in the order they are written
+    if ctx.mine(600_001) {
+        for (name, lit, expected, sig) in [
+            ("fields-in-declaration-order", "P { x: f(\"x\"), y: f(\"y\"), z: f(\"z\") }", "x\ny\nz\n", "C09:struct-literal-order:declaration-order-literal"),
+            ("fields-permuted", "P { z: f(\"z\"), x: f(\"x\"), y: f(\"y\") }", "z\nx\ny\n", "C09:struct-literal-order:permuted-literal-runs-in-declaration-order"),
+            ("fields-reversed", "P { z: f(\"z\"), y: f(\"y\"), x: f(\"x\") }", "z\ny\nx\n", "C09:struct-literal-order:permuted-literal-runs-in-declaration-order"),
+        ] {
+            let src = format!("struct P {{ x: int32, y: int32, z: int32 }}\nfn f(tag: string) -> int32 {{ let _ = string_println(tag); 1 }}\nfn main() -> unit {{\n    let p = {};\n    let _ = string_println(int32_to_string(p.x + p.y + p.z));\n    ()\n}}\n", lit);
+            let label = format!("struct-literal-order/{}", name);
+            ctx.case(&label.clone(), |c| {
+                if let Some((out, _term, _stderr)) = crate::exec::run_source(c, "C09", &label, &src, 1_000_000) {
+                    if out == format!("{}3\n", expected) {
+                        c.count("struct_literal_order_ok", 1);
+                        c.count("tests", 1);
+                    } else {
+                        c.violation(sig.to_string(), format!("`{}` evaluates its fields as {:?}, written order is {:?}", lit, out, expected), json!({"label": label, "source": src, "stdout": out}));
+                    }
+                }
+            });
+        }
+    }
     // 3. random effect-heavy programs
     let n = tier.pick(200u64, 30_000u64) / ctx.nshards as u64 + 1;
     for j in 0..n {
